@@ -672,7 +672,33 @@ pub fn fuzz_seed_corpus() -> Vec<Vec<u8>> {
         }
         v.push(x);
     }
+    // one text of every trap family (the statement shapes the generated search knows to be delicate), so that the
+    // fuzzer mutates around them instead of having to invent SQL from nothing
+    let mut traps: Vec<Trap> = vec![Trap::Ambiguous, Trap::AggInWhere, Trap::Having, Trap::Union, Trap::UniqueViolation];
+    for k in 0..18u8 {
+        traps.extend([Trap::DivZero(k), Trap::Overflow(k), Trap::WrongTypes(k), Trap::UnknownName(k), Trap::Case(k), Trap::Subquery(k), Trap::LikeOdd(k), Trap::InsertShape(k), Trap::DdlExisting(k), Trap::OrderByOdd(k), Trap::LimitOdd(k), Trap::Func(k, k), Trap::Func(k, k.wrapping_mul(7) % 15)]);
+        traps.push(Trap::Join(k % 9, k, k % 9));
+        traps.push(Trap::Join((k + 2) % 9, k, 0));
+    }
+    let mut seen = std::collections::BTreeSet::new();
+    for (i, t) in traps.iter().enumerate() {
+        let (sql, _) = trap_sql(t);
+        if sql.len() < 600 && seen.insert(sql.clone()) {
+            let mut x = vec![(i as u8).wrapping_mul(53)];
+            x.extend_from_slice(sql.as_bytes());
+            v.push(x);
+        }
+    }
     v
+}
+
+/// libFuzzer dictionary: the tokens of the SQL dialect and the names of the fixture (entries are written in the
+/// dictionary's own escaping).
+pub fn fuzz_dictionary() -> String {
+    let words = [
+        "SELECT", "FROM", "WHERE", "GROUP BY", "ORDER BY", "HAVING", "LIMIT", "OFFSET", "DISTINCT", "AS", "JOIN", "LEFT", "RIGHT", "FULL", "OUTER", "INNER", "CROSS", "ON", "AND", "OR", "NOT", "IS", "NULL", "IN", "BETWEEN", "LIKE", "EXISTS", "CASE", "WHEN", "THEN", "ELSE", "END", "UNION", "ALL", "INSERT", "INTO", "VALUES", "UPDATE", "SET", "DELETE", "CREATE", "TABLE", "UNIQUE", "INDEX", "DROP", "ALTER", "ADD", "COLUMN", "DEFAULT", "PRIMARY KEY", "IF", "TRUE", "FALSE", "ASC", "DESC", "COUNT", "SUM", "AVG", "MIN", "MAX", "ABS", "LENGTH", "UPPER", "LOWER", "COALESCE", "NULLIF", "ROUND", "CAST", "INT", "BIGINT", "TEXT", "DOUBLE", "BOOL", "BEGIN", "COMMIT", "ROLLBACK", "EXPLAIN", "ANALYZE", "VACUUM", " t ", " u ", "t.a", "t.b", "t.c", "t.d", "t.e", "u.k", "u.e", "(", ")", ",", ";", "*", "+", "-", "/", "%", "=", "<>", "!=", "<", "<=", ">", ">=", "||", "'", "''", r#"\""#, "--", "0", "1", "2147483647", "9223372036854775807", "1.5", "1e308", r#"\xff"#,
+    ];
+    words.iter().map(|w| format!("\"{w}\"\n")).collect()
 }
 
 pub fn replay(kind: &str, case: &Value) -> CaseOut {
